@@ -4,10 +4,11 @@ from __future__ import annotations
 import ast
 import itertools
 
-from sa import source
+from sa import minieval, pat, source
 from sa.cfg import cfg_of, guards
+from sa.classes import is_logging_stmt
 from sa.source import AnchorMissing, dotted, is_self_attr, last_attr, local_defs, params_of, short, u, walk_body
-from sa.sym import UnknownAtom, atoms_of, comparison
+from sa.sym import UnknownAtom, atoms_of
 from sa.tables import Unsupported, decide
 
 _V = "esrally/utils/versions.py"
@@ -30,6 +31,63 @@ def optional_int_names(func):
         if isinstance(n, ast.NamedExpr) and isinstance(n.value, ast.Call) and last_attr(n.value.func) in ("latest_bounded_minor", "_latest_major", "major_version"):
             names.add(n.target.id)
     return names
+
+
+def bound_name(call):
+    """the local bound directly to the value of this call (`x = call(...)` or `(x := call(...))`), else None — names are derived by role, never spelled out."""
+    p = source.parent(call)
+    if isinstance(p, ast.Assign) and p.value is call and len(p.targets) == 1 and isinstance(p.targets[0], ast.Name):
+        return p.targets[0].id
+    if isinstance(p, ast.NamedExpr) and p.value is call and isinstance(p.target, ast.Name):
+        return p.target.id
+    return None
+
+
+def unpacked_names(root, callee, n=4):
+    """[(assign, [name at tuple position 0..n-1])] for every `a, b, c, d = <callee>(...)` below root."""
+    out = []
+    for x in ast.walk(root):
+        if isinstance(x, ast.Assign) and isinstance(x.value, ast.Call) and last_attr(x.value.func) == callee and len(x.targets) == 1 and isinstance(x.targets[0], ast.Tuple) \
+                and len(x.targets[0].elts) == n and all(isinstance(t, ast.Name) for t in x.targets[0].elts):
+            out.append((x, [t.id for t in x.targets[0].elts]))
+    return out
+
+
+def returned_value(ret):
+    """expression a return statement yields: its value, seen through a temporary assigned by the statement just before it (`tmp = E; return tmp`)."""
+    v = ret.value
+    if isinstance(v, ast.Name):
+        par = source.parent(ret)
+        for f in ("body", "orelse", "finalbody"):
+            b = getattr(par, f, None)
+            if isinstance(b, list) and any(x is ret for x in b):
+                i = [k for k, x in enumerate(b) if x is ret][0]
+                prev = code_stmts(b[:i])[-1:] if i else []
+                if prev and isinstance(prev[0], ast.Assign) and len(prev[0].targets) == 1 and isinstance(prev[0].targets[0], ast.Name) and prev[0].targets[0].id == v.id:
+                    return prev[0].value
+    return v
+
+
+def ev_text(e, env):
+    """minieval.ev extended by the two other spellings of string formatting: '<fmt>' % args and '<fmt>'.format(args)."""
+    try:
+        if isinstance(e, ast.BinOp) and isinstance(e.op, ast.Mod) and isinstance(e.left, ast.Constant) and isinstance(e.left.value, str):
+            r = minieval.ev(e.right, env)
+            return e.left.value % (r if isinstance(r, tuple) else (r,))
+        if isinstance(e, ast.Call) and isinstance(e.func, ast.Attribute) and e.func.attr == "format" and isinstance(e.func.value, ast.Constant) and isinstance(e.func.value.value, str) and not e.keywords:
+            return e.func.value.value.format(*[minieval.ev(a, env) for a in e.args])
+    except (TypeError, ValueError, IndexError, KeyError) as x:
+        raise minieval.CannotEval(f"{u(e)[:60]}: {type(x).__name__}")
+    return minieval.ev(e, env)
+
+
+def is_none(n):
+    return isinstance(n, ast.Constant) and n.value is None
+
+
+def code_stmts(stmts):
+    """statements without logging."""
+    return [s for s in stmts if not is_logging_stmt(s)]
 
 
 def boolean_context_atoms(func):
@@ -85,9 +143,13 @@ def run(chk):
     chk.ob("O15.1", "variants order: suffix, patch, minor, major", ok, av, f"order: {seq}, labels: {[o[3] for o in order]}")
     if order:
         sfx = order[0][4]
-        # the suffix entry is conditional on a suffix being present, the others unconditional
+        # the suffix entry is conditional on a suffix being present (guard fact `self.suffix`, whichever arm / polarity), the others unconditional;
+        # when the condition is a conditional expression its other arm contributes nothing
+        ok = pat.guarded(sfx, "self.suffix") is not None
         cond = [a for a in source.ancestors(sfx) if isinstance(a, ast.IfExp)]
-        ok = bool(cond) and u(cond[0].test) == "self.suffix" and isinstance(cond[0].orelse, ast.List) and not cond[0].orelse.elts
+        if ok and cond:
+            other = cond[0].orelse if any(x is sfx for x in ast.walk(cond[0].body)) else cond[0].body
+            ok = isinstance(other, (ast.List, ast.Tuple)) and not other.elts
         chk.ob("O15.1", "suffix variant only when the version has a suffix", ok, sfx, "")
     rets = [n for n in walk_body(av) if isinstance(n, ast.Return)]
     ok = len(rets) == 1 and not any(isinstance(c, ast.Call) and dotted(c.func) in ("sorted", "reversed", "set") or (isinstance(c, ast.Call) and last_attr(c.func) in ("sort", "reverse")) for c in ast.walk(av))
@@ -95,15 +157,20 @@ def run(chk):
     fm = {"with_major": ["major"], "with_minor": ["major", "minor"], "with_patch": ["major", "minor", "patch"], "with_suffix": ["major", "minor", "patch", "suffix"]}
     for n in walk_body(init):
         if isinstance(n, ast.Assign) and is_self_attr(n.targets[0]) and n.targets[0].attr in fm:
-            v = n.value.body if isinstance(n.value, ast.IfExp) else n.value
+            v = n.value
+            cond_ok = True
+            if isinstance(v, ast.IfExp):
+                # the formatted arm is the one taken when a suffix is present (decided from its guard facts, not from the arm position)
+                v = v.body if isinstance(v.body, ast.JoinedStr) else v.orelse
+                cond_ok = pat.guarded(v, "self.suffix", "self.suffix is not None", stop=n) is not None
             ok = False
-            if isinstance(v, ast.JoinedStr):
+            if isinstance(v, ast.JoinedStr) and cond_ok:
                 parts = []
                 seps = []
                 for p in v.values:
                     if isinstance(p, ast.FormattedValue):
                         e = p.value
-                        if isinstance(e, ast.Call) and dotted(e.func) == "int":
+                        if isinstance(e, ast.Call) and dotted(e.func) == "int" and len(e.args) == 1:
                             e = e.args[0]
                         parts.append(e.attr if is_self_attr(e) else "?")
                     elif isinstance(p, ast.Constant):
@@ -112,27 +179,70 @@ def run(chk):
                 ok = parts == fm[n.targets[0].attr] and seps == want_seps
             chk.ob("O15.1", f"{n.targets[0].attr} format", ok, n, short(n.value, 90))
     bm = ver.func("best_match")
+    if len(params_of(bm)) != 2:
+        raise AnchorMissing("best_match(available_alternatives, distribution_version)")
     alt, dist = params_of(bm)
     loops = [n for n in walk_body(bm) if isinstance(n, ast.For)]
     if not loops:
         raise AnchorMissing("loop over the variants in best_match")
-    L = loops[0]
-    ok = isinstance(L.iter, ast.Attribute) and L.iter.attr == "all_versions" and isinstance(L.target, ast.Tuple)
+    # the variants loop is the one iterating `<variants>.all_versions`; its two targets are the variant and its type (names by position)
+    L = next((n for n in loops if isinstance(n.iter, ast.Attribute) and n.iter.attr == "all_versions"), loops[0])
+    ok = isinstance(L.iter, ast.Attribute) and L.iter.attr == "all_versions" and isinstance(L.target, ast.Tuple) and len(L.target.elts) == 2 and all(isinstance(t, ast.Name) for t in L.target.elts)
     vvar, tvar = (L.target.elts[0].id, L.target.elts[1].id) if ok else (None, None)
     chk.ob("O15.1", "matcher iterates the variants in list order", ok, L, u(L.iter))
-    first = L.body[0]
-    ok = isinstance(first, ast.If) and u(first.test) == f"{vvar} in {alt}" and len(first.body) == 1 and isinstance(first.body[0], ast.Return) and u(first.body[0].value) == vvar
-    chk.ob("O15.1", "exact test first in each step (returns the variant itself)", ok, first, short(first, 60))
     fb = [n for n in ast.walk(L) if isinstance(n, ast.Call) and last_attr(n.func) == "latest_bounded_minor"]
-    ok = False
-    if fb:
-        g = cfg_of(bm)
-        ok = g.dominated_by_nodes(g.node_of(fb[0]), [g.node_of(first)]) and not g.path_exists(g.node_of(fb[0]), g.node_of(first), avoid=[g.node_of(L)])
-        tests = [t for t, pol in guards(fb[0], stop=L)] + [source.enclosing(fb[0], ast.If).test if source.enclosing(fb[0], ast.If) is not None else None]
-        at_minor = any(t is not None and any(u(a) == f"{tvar} == 'with_minor'" for a in atoms_of(t)) for t in tests)
-        # the call must be evaluated only when the type test holds (short-circuit: the type test is an earlier operand of the same `and`)
-        ok = ok and at_minor
-    chk.ob("O15.1", "nearest-prior-minor fallback after the exact test, at the minor step only", ok, fb[0] if fb else L, "")
+    found_names = {bound_name(c) for c in fb} - {None}
+
+    def is_fallback_value(n):
+        while isinstance(n, ast.NamedExpr):
+            n = n.value
+        return (isinstance(n, ast.Call) and last_attr(n.func) == "latest_bounded_minor") or (isinstance(n, ast.Name) and n.id in found_names)
+
+    def step(exact, step_type, found):
+        """outcome of one loop step, evaluated for: variant among the alternatives? / type of the step (a value) / bounded-minor search found something?"""
+
+        def atom(n, env):
+            if vvar is None:
+                return None
+            if pat.match(n, f"V_v in {alt}", {"v": vvar}) is not None:
+                return exact
+            if pat.match(n, f"V_v not in {alt}", {"v": vvar}) is not None:
+                return not exact
+            if isinstance(n, ast.Compare) and len(n.ops) == 1 and isinstance(n.ops[0], (ast.Is, ast.IsNot)) and is_none(n.comparators[0]) and is_fallback_value(n.left):
+                return found if isinstance(n.ops[0], ast.IsNot) else not found
+            if is_fallback_value(n):
+                return found  # a truthiness test is O15.2's finding; here only the ORDER of the tests is decided
+            if isinstance(n, (ast.BoolOp, ast.UnaryOp, ast.NamedExpr)):
+                return None
+            try:
+                return bool(minieval.ev(n, {tvar: step_type}))  # tests on the step type are evaluated as Python would, whatever their spelling
+            except minieval.CannotEval:
+                return None
+
+        return decide(L.body, atom, {})
+
+    firsts = [n for n in ast.walk(L) if isinstance(n, ast.If) and vvar is not None and any(pat.is_(a, f"V_v in {alt}", f"V_v not in {alt}", binds={"v": vvar}) for a in atoms_of(n.test))]
+    first = firsts[0] if firsts else None
+    outs = {}
+    try:
+        for case in itertools.product([True, False], ["with_suffix", "with_patch", "with_minor", "with_major"], [True, False]):
+            outs[case] = step(*case)
+    except (Unsupported, UnknownAtom) as e:
+        chk.unknown("O15.1", f"a step of the variants loop is not a decision over (exact match, step type, bounded-minor result): {e}", L)
+        outs = None
+    if outs is not None:
+        # whatever the step type and the fallback would say, an available variant is returned itself
+        ok = first is not None and all(o.kind == "return" and isinstance(o.value, ast.Name) and o.value.id == vvar for c, o in outs.items() if c[0])
+        chk.ob("O15.1", "exact test first in each step (returns the variant itself)", ok, first if first is not None else L, short(first, 60) if first is not None else "")
+        ok = False
+        if fb and first is not None:
+            g = cfg_of(bm)
+            ok = g.dominated_by_nodes(g.node_of(fb[0]), [g.node_of(first)]) and not g.path_exists(g.node_of(fb[0]), g.node_of(first), avoid=[g.node_of(L)])
+            # no exact match: the fallback result is returned at the minor step when the search found something, and at no other step / in no other case
+            taken = outs[(False, "with_minor", True)]
+            ok = ok and taken.kind == "return" and not (isinstance(taken.value, ast.Name) and taken.value.id == vvar) and not is_none(taken.value) and taken.value is not None
+            ok = ok and all(o.kind in ("fallthrough", "continue") for c, o in outs.items() if not c[0] and c != (False, "with_minor", True))
+        chk.ob("O15.1", "nearest-prior-minor fallback after the exact test, at the minor step only", ok, fb[0] if fb else L, "")
 
     # ---- O15.2 no truthiness on optional ints ----------------------------------------------------------------------------------------------------
     chk.rule("O15.2", "values flowing from the version-component tuple or from the bounded-minor search (ints or None, 0 meaningful) are tested only with `is (not) None` / comparisons, never by truthiness", 2,
@@ -164,21 +274,20 @@ def run(chk):
              "master only when the major is STRICTLY greater than the latest major branch, or the version is serverless / empty; otherwise None", 40,
              "a branch of another major or of a later minor is selected; master selected although a matching major exists")
     lb = ver.func("latest_bounded_minor")
+    if len(params_of(lb)) != 2:
+        raise AnchorMissing("latest_bounded_minor(alternatives, target_version)")
     altp, tgt = params_of(lb)
-    lloops = [n for n in walk_body(lb) if isinstance(n, ast.For)]
+    # the candidate loop is the one in which a branch name is split into its components; the four locals are named by their tuple position
+    lloops = [n for n in walk_body(lb) if isinstance(n, ast.For) and unpacked_names(n, "components")]
     if not lloops:
-        raise AnchorMissing("loop over alternatives in latest_bounded_minor")
+        raise AnchorMissing("loop over alternatives with a `major, minor, patch, suffix = components(...)` unpacking in latest_bounded_minor")
     LL = lloops[0]
-    comp = [n for n in ast.walk(LL) if isinstance(n, ast.Assign) and isinstance(n.value, ast.Call) and last_attr(n.value.func) == "components" and isinstance(n.targets[0], ast.Tuple)]
-    if not comp:
-        raise AnchorMissing("components() unpacking in latest_bounded_minor")
-    mj, mn, pa, sf = [t.id for t in comp[0].targets[0].elts]
+    comp = [a for a, _ in unpacked_names(LL, "components")]
+    mj, mn, pa, sf = unpacked_names(LL, "components")[0][1]
     strict_kw = source.arg_of(comp[0].value, 1, "strict")
     chk.ob("O15.3", "branch names parsed non-strictly (M, M.m allowed)", strict_kw is not None and source.is_const(strict_kw, False), comp[0], "")
     # the loop body is decided on VALUES: target 8.5, candidate major in (7, 8, 9), minor in (None, 0, 3, 5, 7), patch in (None, 1), suffix in (None, 'x');
     # every test is evaluated as Python would (including truthiness of a bare name), so operator choice, orientation and arm order are free
-    from sa import minieval
-
     MINOR = {"none": None, "zero": 0, "less": 3, "equal": 5, "greater": 7}
     MAJOR = {"lower": 7, "same": 8, "higher": 9}
     body = [s for s in LL.body]
@@ -201,59 +310,91 @@ def run(chk):
         except (Unsupported, UnknownAtom) as e:
             chk.unknown("O15.3", f"eligibility is not a decision over (major, minor, patch, suffix) of the candidate and the target: {e}", LL)
             break
-        eligible = any(isinstance(e, ast.Call) and last_attr(e.func) == "append" and u(e.args[0]) == mn for e in out.effects)
+        eligible = any(isinstance(e, ast.Call) and last_attr(e.func) == "append" and len(e.args) == 1 and isinstance(e.args[0], ast.Name) and e.args[0].id == mn for e in out.effects)
         want = mjn == "same" and m in ("zero", "less", "equal") and patch is None and suffix is None
         accept = eligible == want or (m == "equal" and mjn == "same" and patch is None and suffix is None)  # `<` is accepted: the equal minor is taken by the exact step
         rows += 1
         chk.ob("O15.3", f"eligible? major {mjn}, minor {m}, patch {'set' if patch else 'none'}, suffix {'set' if suffix else 'none'}", accept, LL,
                f"code: {'eligible' if eligible else 'not eligible'}; documented: {'eligible' if want else 'not eligible'}", key=f"{_V}:latest_bounded_minor:row:{mjn}|{m}|{patch is not None}|{suffix is not None}")
     # result: nearest of eligible
+    # the list of eligible minors is the receiver of the `.append(<minor>)` in the candidate loop
+    elists = [n.func.value.id for n in ast.walk(LL) if isinstance(n, ast.Call) and last_attr(n.func) == "append" and isinstance(n.func.value, ast.Name) and len(n.args) == 1
+              and isinstance(n.args[0], ast.Name) and n.args[0].id == mn]
+    elist = elists[0] if elists else None
     rets = [n for n in lb.body if isinstance(n, ast.Return)] + [n for n in walk_body(lb) if isinstance(n, ast.Return) and n not in lb.body]
-    final = [r for r in rets if not (isinstance(r.value, ast.Constant) and r.value.value is None)]
+    final = [r for r in rets if not (r.value is None or is_none(returned_value(r)))]
+
+    def key_order(lam):
+        """+1 / -1 if the key function is strictly increasing / decreasing over eligible minors (all <= target minor 5), 0 otherwise; evaluated on values."""
+        if not (isinstance(lam, ast.Lambda) and len(lam.args.args) == 1):
+            raise minieval.CannotEval("key is not a one-parameter lambda")
+        ks = [minieval.ev(lam.body, {lam.args.args[0].arg: x, tgt: minieval.Record(major=8, minor=5, patch=0, suffix=None)}) for x in (0, 1, 3, 4, 5)]
+        if not all(isinstance(k, (int, float)) for k in ks):
+            raise minieval.CannotEval("key is not numeric")
+        return 1 if all(a < b for a, b in zip(ks, ks[1:])) else (-1 if all(a > b for a, b in zip(ks, ks[1:])) else 0)
+
     ok = False
+    undecided = None
     if len(final) == 1:
-        v = final[0].value
-        if isinstance(v, ast.Call) and dotted(v.func) == "max" and len(v.args) == 1 and not v.keywords:
-            ok = True
-        elif isinstance(v, ast.Call) and dotted(v.func) == "min" and v.keywords and isinstance(v.keywords[0].value, ast.Lambda):
-            lam = v.keywords[0].value
-            x = lam.args.args[0].arg
-            ok = u(lam.body) in (f"abs({x} - {tgt}.minor)", f"abs({tgt}.minor - {x})", f"{tgt}.minor - {x}")
+        v = returned_value(final[0])
+        if isinstance(v, ast.Call) and dotted(v.func) in ("max", "min") and len(v.args) == 1 and all(k.arg == "key" for k in v.keywords):
+            want = 1 if dotted(v.func) == "max" else -1  # the nearest prior minor is the greatest eligible one
+            try:
+                ok = (key_order(v.keywords[0].value) if v.keywords else 1) == want
+            except minieval.CannotEval as e:
+                undecided = str(e)
         elif isinstance(v, ast.Subscript) and u(v.slice) == "-1" and any(isinstance(c, ast.Call) and last_attr(c.func) == "sort" for c in ast.walk(lb)):
             ok = True
-    chk.ob("O15.3", "result is the nearest eligible minor", ok, final[0] if final else lb, short(final[0], 90) if final else "")
-    none_rets = [r for r in rets if isinstance(r.value, ast.Constant) and r.value.value is None]
-    ok = bool(none_rets) and any(pol and u(t).startswith("not ") for t, pol in guards(none_rets[0]))
+    if undecided is not None:
+        chk.unknown("O15.3", f"the selection key of the nearest eligible minor cannot be evaluated: {undecided}", final[0])
+    else:
+        chk.ob("O15.3", "result is the nearest eligible minor", ok, final[0] if final else lb, short(final[0], 90) if final else "")
+    none_rets = [r for r in rets if r.value is None or is_none(returned_value(r))]
+    # the None result is guarded by the fact "no eligible minor was collected" (either arm / polarity of the test)
+    ok = bool(none_rets) and elist is not None and pat.guarded(none_rets[0], "not V_e", "len(V_e) == 0", "V_e == []", binds={"e": elist}) is not None
     chk.ob("O15.3", "None when nothing is eligible", ok, none_rets[0] if none_rets else lb, "")
     # matcher: fallback result formatting and master rule
-    fr = [n for n in ast.walk(L) if isinstance(n, ast.Return) and isinstance(n.value, ast.JoinedStr)]
-    ok = bool(fr) and [u(p.value) for p in fr[0].value.values if isinstance(p, ast.FormattedValue)][0].endswith(".major")
+    # names by role: the variants object (assigned from VersionVariants(...)), the components of the distribution version (tuple positions), the bounded-minor result
+    vv_names = {bound_name(n) for n in walk_body(bm) if isinstance(n, ast.Call) and last_attr(n.func) == "VersionVariants"} - {None}
+    env = {nm: minieval.Record(major=8, minor=5, patch=1, suffix=None, with_major="8", with_minor="8.5", with_patch="8.5.1", with_suffix=None) for nm in vv_names}
+    env.update({nm: 3 for nm in found_names})
+    env[dist] = "8.5.1"
+    for _, nms in unpacked_names(bm, "components"):
+        env.update({k: v_ for k, v_ in zip(nms, (8, 5, 1, None)) if k != "_"})
+    taken = outs[(False, "with_minor", True)] if outs is not None else None
+    fr = [(taken.node, taken.value)] if taken is not None and taken.kind == "return" and taken.value is not None else [(n, returned_value(n)) for n in ast.walk(L) if isinstance(n, ast.Return) and isinstance(returned_value(n), ast.JoinedStr)]
+    ok = False
+    if fr:
+        try:
+            # evaluated for target 8.5.1 and nearest eligible minor 3
+            ok = ev_text(fr[0][1], dict(env)) == "8.3"
+        except minieval.CannotEval:
+            fvs = [u(p_.value) for p_ in fr[0][1].values if isinstance(p_, ast.FormattedValue)] if isinstance(fr[0][1], ast.JoinedStr) else []
+            ok = bool(fvs) and fvs[0].endswith(".major")
+    fr = [x[0] for x in fr]
     chk.ob("O15.3", "fallback result is '<target major>.<nearest minor>'", ok, fr[0] if fr else L, short(fr[0], 60) if fr else "")
     masters = [n for n in walk_body(bm) if isinstance(n, ast.Return) and source.is_const(n.value, "master")]
-    conds = []
-    for m_ in masters:
-        gs = guards(m_)
-        conds.append([(u(source.inline_node(t, local_defs(bm))), pol) for t, pol in gs])
-    ok_strict = any(any(pol and comparison(source.inline_node(t, {})) is not None and comparison(t)[1] == ">" and "_latest_major" in u(comparison(t)[2]) for t, pol in guards(m_)) for m_ in masters)
+    STRICT = "E_m > _latest_major(E_a)"  # matches either orientation (`_latest_major(..) < major`); >= / <= do not match
+    conds = [[(u(source.inline_node(t, local_defs(bm))), pol) for t, pol in guards(m_)] for m_ in masters]
+    ok_strict = any(any(pat.is_(f, STRICT) for f in pat.fact_nodes(m_)) for m_ in masters)
     chk.ob("O15.3", "master when the major is strictly greater than the latest major branch", ok_strict, masters[0] if masters else bm, f"master conditions: {conds}")
     for m_ in masters:
-        gs = guards(m_)
-        ok = False
-        for t, pol in gs:
-            c = comparison(t)
-            if pol and c is not None and "_latest_major" in u(t):
-                ok = c[1] == ">" and "_latest_major" in u(c[2]) or (c[1] == "<" and "_latest_major" in u(c[0]))
-            if pol and ("is_serverless" in u(t) or u(t) == f"not {dist}"):
-                ok = True
-        chk.ob("O15.3", "master only under strictly-greater major / serverless / empty version", ok, m_, f"{[(u(t), p) for t, p in gs]}")
+        fs = pat.fact_nodes(m_)
+        # a guard fact mentioning the latest major must be the strict comparison; otherwise the serverless / empty-version facts qualify
+        about_latest = [f for f in fs if any(isinstance(x, ast.Call) and last_attr(x.func) == "_latest_major" for x in ast.walk(f))]
+        if about_latest:
+            ok = all(pat.is_(f, STRICT) for f in about_latest)
+        else:
+            ok = any(pat.is_(f, "is_serverless(E_x)", "E_q.is_serverless(E_x)", f"not {dist}") for f in fs)
+        chk.ob("O15.3", "master only under strictly-greater major / serverless / empty version", ok, m_, f"{[(u(t), p_) for t, p_ in guards(m_)]}")
     # master for a version identifier only after the variants loop is exhausted
     g = cfg_of(bm)
     for m_ in masters:
-        if any("is_version_identifier" in u(t) and pol for t, pol in guards(m_)):
+        if any(isinstance(f, ast.Call) and last_attr(f.func) == "is_version_identifier" for f in pat.fact_nodes(m_)):
             ok = g.dominated_by_nodes(g.node_of(m_), [g.node_of(L)]) and not g.path_exists(g.node_of(m_), g.node_of(L))
             chk.ob("O15.3", "master considered only after every variant failed", ok, m_, "")
     endret = bm.body[-1]
-    chk.ob("O15.3", "otherwise None", isinstance(endret, ast.Return) and isinstance(endret.value, ast.Constant) and endret.value.value is None, endret, "")
+    chk.ob("O15.3", "otherwise None", isinstance(endret, ast.Return) and (endret.value is None or is_none(endret.value)), endret, "")
     lm = ver.func("_latest_major")
     ok = any(isinstance(n, ast.Assign) and isinstance(n.value, ast.Call) and dotted(n.value.func) == "max" for n in walk_body(lm)) and any(
         isinstance(n, ast.Assign) and isinstance(n.value, ast.UnaryOp) and isinstance(n.value.op, ast.USub) for n in walk_body(lm))
@@ -268,21 +409,37 @@ def run(chk):
     if up is None:
         raise AnchorMissing("RallyRepository.update")
     gu = cfg_of(up)
+    if len(params_of(up)) < 2:
+        raise AnchorMissing("RallyRepository.update(self, distribution_version)")
+    dv = params_of(up)[1]
     bms = [n for n in walk_body(up) if isinstance(n, ast.Call) and last_attr(n.func) == "best_match"]
     ok = len(bms) == 2
     chk.ob("O15.4", "two matcher calls (remote, local)", ok, up, f"{len(bms)} best_match call(s)")
+
+    def branch_source(c):
+        """the `remote` argument of the git.branches(...) call whose result this matcher call searches (None if it searches something else)."""
+        a0 = source.arg_of(c, 0, "available_alternatives")
+        a0 = source.inline_node(a0, local_defs(up)) if a0 is not None else None
+        return source.arg_of(a0, 1, "remote") if isinstance(a0, ast.Call) and last_attr(a0.func) == "branches" else None
+
+    # the two calls are told apart by WHAT they search (remote=self.remote / remote=False), not by their order in the text
+    rem = next((c for c in bms if is_self_attr(branch_source(c), "remote")), None)
+    loc = next((c for c in bms if source.is_const(branch_source(c), False)), None)
     if len(bms) == 2:
-        rem, loc = bms
-        ok = "remote=self.remote" in u(rem) and any(pol and u(t) == "self.remote" for t, pol in guards(rem)) and "remote=False" in u(loc)
-        chk.ob("O15.4", "remote branches first (only for remote repos), then local branches", ok and not gu.path_exists(gu.node_of(loc), gu.node_of(rem)), rem, "")
-        for c in (rem, loc):
-            ok = u(c.args[1]) == params_of(up)[1]
+        ok = rem is not None and loc is not None and rem is not loc and pat.guarded(rem, "self.remote") is not None
+        chk.ob("O15.4", "remote branches first (only for remote repos), then local branches", ok and not gu.path_exists(gu.node_of(loc), gu.node_of(rem)), rem if rem is not None else up, "")
+        for c in bms:
+            a1 = source.arg_of(c, 1, "distribution_version")
+            ok = isinstance(a1, ast.Name) and a1.id == dv
             chk.ob("O15.4", "matcher called with the distribution version", ok, c, "")
+    # names by role: the local holding the local-branch match, the local holding the tag
     tagc = [n for n in walk_body(up) if isinstance(n, ast.Call) and last_attr(n.func) == "_find_matching_tag"]
-    ok = bool(tagc) and len(bms) == 2 and gu.dominated_by_nodes(gu.node_of(tagc[0]), [gu.node_of(bms[1])]) and any((not pol) and u(t) == "branch" for t, pol in guards(tagc[0]))
+    lbranch = bound_name(loc) if loc is not None else None
+    ok = bool(tagc) and len(bms) == 2 and lbranch is not None and gu.dominated_by_nodes(gu.node_of(tagc[0]), [gu.node_of(loc)]) and pat.guarded(tagc[0], "not V_b", binds={"b": lbranch}) is not None
     chk.ob("O15.4", "tags only after no local branch matched", ok, tagc[0] if tagc else up, "")
     raises = [n for n in walk_body(up) if isinstance(n, ast.Raise) and not isinstance(source.enclosing(n, (ast.ExceptHandler,)), ast.ExceptHandler)]
-    ok = bool(raises) and any((not pol) and u(t) == "tag" for t, pol in guards(raises[0]))
+    tagv = bound_name(tagc[0]) if tagc else None
+    ok = bool(raises) and tagv is not None and pat.guarded(raises[0], "not V_t", binds={"t": tagv}) is not None
     chk.ob("O15.4", "explicit error when nothing qualifies", ok, raises[0] if raises else up, "")
     cos = [n for n in walk_body(up) if isinstance(n, ast.Call) and dotted(n.func) == "git.checkout"]
     # the revision pinned for later loads (workers re-load with it) is the head AFTER the ref was switched: no checkout / rebase can follow a revision read
@@ -296,11 +453,20 @@ def run(chk):
     chk.ob("O15.4", "revision recorded after a checkout", len(revw) >= 2, revw[0] if revw else up, f"{len(revw)} site(s)")
     for c in cos:
         ref = source.arg_of(c, 1, "branch")
-        d = None
-        if isinstance(ref, ast.Name):
-            cands = [n for n in walk_body(up) if isinstance(n, ast.Assign) and isinstance(n.targets[0], ast.Name) and n.targets[0].id == ref.id]
-            d = cands
-        ok = bool(d) and all(isinstance(x.value, ast.Call) and last_attr(x.value.func) in ("best_match", "_find_matching_tag") for x in d)
+
+        def origins(name, seen=()):
+            """values that can reach the local `name` in update(), seen through plain aliases (`a = b`)."""
+            out = []
+            for n in walk_body(up):
+                if isinstance(n, ast.Assign) and any(isinstance(t, ast.Name) and t.id == name for t in n.targets):
+                    if isinstance(n.value, ast.Name) and n.value.id not in seen and n.value.id != name:
+                        out += origins(n.value.id, seen + (name,)) or [n.value]
+                    else:
+                        out.append(n.value)
+            return out
+
+        d = origins(ref.id) if isinstance(ref, ast.Name) else None
+        ok = bool(d) and all(isinstance(x, ast.Call) and last_attr(x.func) in ("best_match", "_find_matching_tag") for x in d)
         chk.ob("O15.4", "checked-out ref is the matcher's (or tag finder's) result", ok, c, short(c, 70))
         # errors propagate: from the checkout's exception edges the normal exit is unreachable
         cn = gu.node_of(c)
@@ -319,14 +485,14 @@ def run(chk):
     ok = False
     detail = ""
     if apps:
-        a = apps[0].args[0]
+        a = apps[0].args[0] if apps[0].args else apps[0]
         while isinstance(a, ast.Call) and last_attr(a.func) == "strip":
             a = a.func.value
         detail = u(a)
-        rv = None
+        # the ref is the loop variable of the enclosing loop (named by role)
         loop = source.enclosing(apps[0], ast.For)
-        rv = loop.target.id if loop is not None and isinstance(loop.target, ast.Name) else "ref"
-        ok = u(a) in (f"{rv}[{rv}.index('/') + 1:]", f"{rv}.split('/', 1)[1]", f"{rv}.partition('/')[2]", f"{rv}[{rv}.find('/') + 1:]")
+        rv = loop.target.id if loop is not None and isinstance(loop.target, ast.Name) else None
+        ok = rv is not None and pat.is_(a, "V_r[V_r.index('/') + 1:]", "V_r.split('/', 1)[1]", "V_r.partition('/')[2]", "V_r[V_r.find('/') + 1:]", binds={"r": rv})
     chk.ob("O15.4", "remote ref -> branch name strips only the remote prefix (first path component)", ok, apps[0] if apps else crb, detail + ("" if ok else " — branch names containing '/' (users/joe/8.3) would turn into version-looking names"))
 
 
